@@ -65,7 +65,7 @@ pub fn spawn_tty(dir: &std::path::Path, args: &[&str], keys: &[u8], timeout_ms: 
     }
     let out = child.wait_with_output().expect("wait");
     drop(master);
-    ProcOut { status: if timed_out { None } else { out.status.code() }, stdout: out.stdout, stderr: out.stderr }
+    ProcOut { pid: 0, status: if timed_out { None } else { out.status.code() }, stdout: out.stdout, stderr: out.stderr }
 }
 
 fn show(o: &ProcOut) -> String {
@@ -232,7 +232,7 @@ pub fn spawn_tty_synced(dir: &std::path::Path, args: &[&str], keys: &str, timeou
     drop(master);
     let stdout = out.lock().unwrap().clone();
     let stderr = err.lock().unwrap().clone();
-    ProcOut { status, stdout, stderr }
+    ProcOut { pid: 0, status, stdout, stderr }
 }
 
 /// `K03`: per read GETC|IN, PUTN, OUT (OUT flushes standard output).
